@@ -20,15 +20,28 @@ F_REORDER = "C20-signed-reorder"
 _KEYS = {}
 
 
-def keys():
-    if not _KEYS:
+SIGNERS = ("B", "D", "E")
+
+
+def keys(signer="B"):
+    """signer ids of the three kinds the library knows: "B" the id is the (only) verification key; "D" the id is the
+    inception key of an identifier whose key has been rotated since - the current key is in the keep; "E" the id is a
+    digest, the key is in the keep"""
+    if signer not in _KEYS:
         import pysodium
         from hio.core.memo.memoing import Memoer, Keyage
         seed = bytes(range(32))
         verkey, sigkey = pysodium.crypto_sign_seed_keypair(seed)
-        vid = Memoer._encodeVID(verkey)
-        _KEYS.update(vid=vid, keep={vid: Keyage(qvk=Memoer._encodeQVK(verkey), qss=Memoer._encodeQSS(seed))})
-    return _KEYS
+        if signer == "B":
+            vid = Memoer._encodeVID(verkey)
+            keep = {vid: Keyage(qvk=Memoer._encodeQVK(verkey), qss=Memoer._encodeQSS(seed))}
+        else:
+            seed2 = bytes(range(100, 132))
+            verkey2, _ = pysodium.crypto_sign_seed_keypair(seed2)
+            vid = Memoer._encodeVID(verkey if signer == "D" else bytes(range(200, 232)), code=signer)
+            keep = {vid: Keyage(qvk=Memoer._encodeQVK(verkey2), qss=Memoer._encodeQSS(seed2))}
+        _KEYS[signer] = dict(vid=vid, keep=keep)
+    return _KEYS[signer]
 
 
 def codes():
@@ -36,25 +49,35 @@ def codes():
     return [(MemoDex.GramZero, False), (MemoDex.GramSureZero, False), (MemoDex.GramAuthZero, True), (MemoDex.GramSureAuthZero, True)]
 
 
-def mk(code, auth, curt=False, size=None):
+def mk(code, auth, curt=False, size=None, signer="B", via=False):
+    """via: the Memoer is made with the other header encoding and another gram size and then set to (curt, size), as an
+    application that reconfigures a live Memoer does: it must behave like one made with (curt, size)"""
     from hio.core.memo import memoing
-    k = keys()
+    k = keys(signer)
     cls = memoing.AuthMemoer if auth else memoing.Memoer
-    m = cls(code=code, curt=curt, size=size, keep=k["keep"], vid=k["vid"], authic=auth)
+    if via == "curt-only":      # only the header encoding is switched: the gram size must follow to the new minimum by itself
+        m = cls(code=code, curt=not curt, size=size, keep=k["keep"], vid=k["vid"], authic=auth)
+        m.curt = curt
+    elif via:
+        m = cls(code=code, curt=not curt, size=1, keep=k["keep"], vid=k["vid"], authic=auth)
+        m.curt = curt
+        m.size = size
+    else:
+        m = cls(code=code, curt=curt, size=size, keep=k["keep"], vid=k["vid"], authic=auth)
     m.opened = True
     m._echoic = True
     return m
 
 
-def rend_into(code, auth, curt, text, want):
+def rend_into(code, auth, curt, text, want, signer="B"):
     """find a gram size for which `text` (repeated as needed) is rent into exactly `want` grams -> (memo text, grams)"""
     for rep in (1, 2, 3, 5, 8):
         memo = (text * rep)
-        tx0 = mk(code, auth, curt, size=1)      # the setter raises the size to the minimum legal one
+        tx0 = mk(code, auth, curt, size=1, signer=signer)      # the setter raises the size to the minimum legal one
         for size in range(tx0.size, tx0.size + 400):
-            tx = mk(code, auth, curt, size=size)
+            tx = mk(code, auth, curt, size=size, signer=signer, via=bool(size % 2))
             try:
-                grams = tx.rend(memo, keys()["vid"] if auth else None)
+                grams = tx.rend(memo, keys(signer)["vid"] if auth else None)
             except Exception:
                 continue
             if len(grams) == want:
@@ -62,12 +85,12 @@ def rend_into(code, auth, curt, text, want):
     raise core.MachineryError("no gram size splits the memo into %d grams for %s curt=%s" % (want, code, curt))
 
 
-def replay(code, auth, curt, count, h, cache):
-    key = (code, curt, tuple(sorted(count.items())))
+def replay(code, auth, curt, count, h, cache, signer="B"):
+    key = (code, curt, tuple(sorted(count.items())), signer)
     if key not in cache:
-        cache[key] = {m: rend_into(code, auth, curt, TEXT[m], n) for m, n in count.items()}
+        cache[key] = {m: rend_into(code, auth, curt, TEXT[m], n, signer) for m, n in count.items()}
     mats = cache[key]
-    rx = mk(code, auth)
+    rx = mk(code, auth, signer=signer)
     got_hist = []
     for e in h:
         memo, grams = mats[e["m"]]
@@ -83,9 +106,9 @@ def replay(code, auth, curt, count, h, cache):
     return got_hist, None
 
 
-def judge(count, auth, h, got_hist, mats, flags):
+def judge(count, auth, h, got_hist, mats, flags, signer="B"):
     """property on the real run, model as reference; -> (violation, finding id, finding text)"""
-    vid = keys()["vid"] if auth else None
+    vid = keys(signer)["vid"] if auth else None
     seen = {m: set() for m in count}
     steps = []
     for k, e in enumerate(h):
@@ -131,29 +154,33 @@ def segmentation_sweep(ctx):
     for (code, auth) in codes():
         for curt in (False, True):
             base = mk(code, auth, curt, size=1).size
-            for size in range(base, base + (48 if ctx.quick else 160)):
+            # size 1 stands for: made with the smallest size of the OTHER encoding, then only .curt is switched
+            for size in [1] + list(range(base, base + (48 if ctx.quick else 160))):
                 for memo in ("x", "ä☃𝄞" * 3, "0123456789" * (9 if ctx.quick else 40)):
+                    signer, via = (SIGNERS[size % 3] if auth else "B"), bool((size // 3) % 2)
+                    if size == 1:
+                        via = "curt-only"
                     ctx.case(("seg", code, curt, size, len(memo)))
-                    tx = mk(code, auth, curt, size=size)
+                    tx = mk(code, auth, curt, size=size, signer=signer, via=via)
                     try:
-                        grams = tx.rend(memo, keys()["vid"] if auth else None)
+                        grams = tx.rend(memo, keys(signer)["vid"] if auth else None)
                     except Exception as ex:
                         ctx.violation("rend() of a %d character memo with code %s, %s headers, gram size %d raised %s: %s" % (
                             len(memo), code, "binary" if curt else "base64", size, type(ex).__name__, ex),
-                            {"kind": "seg", "code": code, "auth": auth, "curt": curt, "size": size, "memo": memo})
+                            {"kind": "seg", "code": code, "auth": auth, "curt": curt, "size": size, "memo": memo, "signer": signer, "via": via})
                         continue
-                    if any(len(g) > size for g in grams):
+                    if any(len(g) > max(size, base) for g in grams):
                         ctx.violation("code %s %s size %d: a gram of %d bytes exceeds the gram size" % (
                             code, "binary" if curt else "base64", size, max(len(g) for g in grams)),
-                            {"kind": "seg", "code": code, "auth": auth, "curt": curt, "size": size, "memo": memo})
-                    rx = mk(code, auth)
+                            {"kind": "seg", "code": code, "auth": auth, "curt": curt, "size": size, "memo": memo, "signer": signer, "via": via})
+                    rx = mk(code, auth, signer=signer)
                     for g in grams:
                         rx.echos.append((bytes(g), "s"))
                     rx.serviceAllRx()
-                    if [t for (t, s, v) in rx.inbox] != [memo]:
+                    if [(t, s, v) for (t, s, v) in rx.inbox] != [(memo, "s", keys(signer)["vid"] if auth else None)]:
                         ctx.violation("code %s %s size %d: %d grams in send order reassemble to %r" % (
                             code, "binary" if curt else "base64", size, len(grams), [t[:40] for (t, s, v) in rx.inbox]),
-                            {"kind": "seg", "code": code, "auth": auth, "curt": curt, "size": size, "memo": memo})
+                            {"kind": "seg", "code": code, "auth": auth, "curt": curt, "size": size, "memo": memo, "signer": signer, "via": via})
 
 
 def run(ctx):
@@ -187,16 +214,17 @@ def run(ctx):
             ctx.case((code, curt, tuple((e["m"], e["gn"]) for e in h)),
                      {"code": code, "binary_headers": curt, "deliveries": [(e["m"], e["gn"]) for e in h], "delivered": h[-1]["delivered"]}
                      if i == nex + 1 else None)
-            got, err = replay(code, auth, curt, count, h, cache)
+            signer = SIGNERS[(i // len(variants)) % 3] if auth else "B"
+            got, err = replay(code, auth, curt, count, h, cache, signer)
             if err:
                 ctx.violation("code %s %s: %s (deliveries %s)" % (code, "binary" if curt else "base64", err, [(e["m"], e["gn"]) for e in h]),
-                              {"kind": "order", "code": code, "auth": auth, "curt": curt, "count": count, "rec": rec})
+                              {"kind": "order", "code": code, "auth": auth, "curt": curt, "count": count, "rec": rec, "signer": signer})
                 continue
-            mats = cache[(code, curt, tuple(sorted(count.items())))]
-            bad, fid, ftext = judge(count, auth, h, got, mats, rec)
+            mats = cache[(code, curt, tuple(sorted(count.items())), signer)]
+            bad, fid, ftext = judge(count, auth, h, got, mats, rec, signer)
             if bad:
                 ctx.violation("code %s %s headers: %s" % (code, "binary" if curt else "base64", bad),
-                              {"kind": "order", "code": code, "auth": auth, "curt": curt, "count": count, "rec": rec})
+                              {"kind": "order", "code": code, "auth": auth, "curt": curt, "count": count, "rec": rec, "signer": signer})
             elif fid:
                 ctx.violation("code %s: %s" % (code, ftext), {"rec": rec}, finding=fid)
     segmentation_sweep(ctx)
@@ -205,25 +233,29 @@ def run(ctx):
                            "for memos of 2 and 1 grams + simulated ones of length 9/12 for memos of 3 and 2 grams; segmentation: one case "
                            "per (code, encoding, gram size from the minimum up, memo)",
                       assumptions=["grams are delivered through the receiver's .echos queue (the transport stub of Memoer)",
-                                   "signatures are Ed25519 over a fixed key pair made with pysodium"])
+                                   "signatures are Ed25519 over fixed key pairs made with pysodium; signer ids rotate over the three kinds (B: the id "
+                                   "is the key; D: inception key of a rotated identifier, current key in the keep; E: digest id)",
+                                   "half of the senders are made with other settings and then set to (header encoding, gram size)"])
 
 
 def replay_case(ctx, case):
     if case["kind"] == "seg":
-        tx = mk(case["code"], case["auth"], case["curt"], size=case["size"])
+        sg = case.get("signer", "B")
+        tx = mk(case["code"], case["auth"], case["curt"], size=case["size"], signer=sg, via=case.get("via", False))
         try:
-            grams = tx.rend(case["memo"], keys()["vid"] if case["auth"] else None)
+            grams = tx.rend(case["memo"], keys(sg)["vid"] if case["auth"] else None)
         except Exception as ex:
             return ["rend raised %s: %s" % (type(ex).__name__, ex)]
-        rx = mk(case["code"], case["auth"])
+        rx = mk(case["code"], case["auth"], signer=sg)
         for g in grams:
             rx.echos.append((bytes(g), "s"))
         rx.serviceAllRx()
         return [] if [t for (t, s, v) in rx.inbox] == [case["memo"]] and all(len(g) <= case["size"] for g in grams) else ["grams do not reassemble"]
     cache = {}
-    got, err = replay(case["code"], case["auth"], case["curt"], case["count"], case["rec"]["h"], cache)
+    sg = case.get("signer", "B")
+    got, err = replay(case["code"], case["auth"], case["curt"], case["count"], case["rec"]["h"], cache, sg)
     if err:
         return [err]
-    mats = cache[(case["code"], case["curt"], tuple(sorted(case["count"].items())))]
-    bad, fid, ftext = judge(case["count"], case["auth"], case["rec"]["h"], got, mats, case["rec"])
+    mats = cache[(case["code"], case["curt"], tuple(sorted(case["count"].items())), sg)]
+    bad, fid, ftext = judge(case["count"], case["auth"], case["rec"]["h"], got, mats, case["rec"], sg)
     return [bad] if bad else []
